@@ -519,6 +519,10 @@ leaps_before(struct dt_dt_s d)
 	zidx_t res;
 	bool on;
 
+	if (dt_sandwich_p(d)) {
+		/* a 06-31 left behind by month arithmetic is the 30th */
+		d.d = dt_dfixup(d.d);
+	}
 	switch (d.typ) {
 	case DT_YMD:
 		res = leaps_before_ui32(leaps_ymd, nleaps, d.d.ymd.u);
